@@ -69,6 +69,12 @@ PROPS = {
         "assumptions": COMMON_ASSUME + ["headers are shorter than 4 GiB (the limit is a uint32; with limit 0 inputs of 4 GiB or more are outside the theorem: CRX compares uint32(len))"],
         "trusted_base": ["root-level signature checks: translated BExp (regenerated) or hand models of Tar, CRX, WebM, Mkv; tie: det ops on boundary inputs + limit-pair ops"],
     },
+    "C18": {
+        "slices": ["tree", "C18"],
+        "relevant_diff": dets_only("Tar"),
+        "assumptions": COMMON_ASSUME + ["'conforming writer' = checksum field holds the unsigned sum as six octal digits, NUL, space (archive/tar, GNU tar, BSD tar)", "first member name is not a Gentoo gpkg name (DESIGN.md §9)"],
+        "trusted_base": ["magic.Tar, tarParseOctal, tarChksum hand-modelled; tree.go regenerated; tie: det/tar ops on archive/tar output"],
+    },
     "C07": {
         "slices": ["tree", "C07", "corpus"],
         "relevant_diff": dets_only("Text"),
